@@ -79,6 +79,8 @@ impl LocalLoader {
 impl Loader for LocalLoader {
     /// Get the representation available t iri
     fn get<T: Borrow<str>>(&self, iri: Iri<T>) -> Result<(Vec<u8>, String), LoaderError> {
+        #[cfg(feature = "verif_hooks")]
+        let read = super::verif::fs_read;
         let iri = iri.as_str().split('#').next().unwrap();
         for (ns, path) in &self.caches {
             if iri.starts_with(ns.as_str()) {
